@@ -507,6 +507,71 @@ def answered_scenario(shape, ttl=3.0):
     return obs
 
 
+def segment_expiry_scenario(order):
+    """a two-segment message whose segments are recorded a second apart (rate limiter, 1 message per second); one segment is never
+    answered and its time-to-live (1 s) runs out - noticed by the sweep of a keep-alive probe - BEFORE the accepting response to the other
+    segment is handled: the message is reported as timed out exactly once (by the response handler, which sees the expired sibling)."""
+    import struct
+    from harness import vsess, smppref
+    from aiosmpplib.correlator import SimpleCorrelator
+    from aiosmpplib.protocol import SubmitSm, SubmitSmResp, GenericNack
+    from aiosmpplib.ratelimiter import SimpleRateLimiter
+    from aiosmpplib.state import PhoneNumber
+    loop = vsess.VLoop()
+    asyncio.set_event_loop(loop)
+    smsc = vsess.FakeSMSC(loop)
+    undo = vsess.install(loop, smsc)
+    obs = {'n': 0}
+    try:
+        from harness.C18 import mk_logger
+        esme, hook = vsess.quiet_esme(enquire_link_interval=0.25, socket_timeout=4.0, correlator=SimpleCorrelator('c14s', max_ttl_response=1.0),
+                                      rate_limiter=SimpleRateLimiter(mk_logger(), send_rate=1.0))
+
+        def on_pdu(conn, pdu):
+            for p in vsess.split_pdus(pdu)[0]:
+                cmd, seq = struct.unpack('>I', p[4:8])[0], struct.unpack('>I', p[12:16])[0]
+                if cmd in (1, 2, 9):
+                    conn.send(vsess.bind_resp_for(p))
+                elif cmd == 0x15:
+                    conn.send(smppref.header(0x80000015, 0, seq), delay=0.01)
+                elif cmd == 4:
+                    obs['n'] += 1
+                    silent = 1 if order == 'first_silent' else 2
+                    if obs['n'] != silent:
+                        # the accepting response to the other segment comes after the silent one has expired
+                        # segment 1 written at 0.5 expires at 1.5 (noticed by the next probe); segment 2, written at 1.5, is answered at 2.2
+                        conn.send(smppref.header(0x80000004, 0, seq, b'ids%d\x00' % seq), delay=0.7 if order == 'first_silent' else 0.1)
+        smsc.on_pdu = on_pdu
+        src = PhoneNumber('38591')
+
+        async def main():
+            t = asyncio.create_task(esme.start())
+            await asyncio.sleep(0.5)
+            await esme.broker.enqueue(SubmitSm(short_message='s' * 300, source=src, destination=src, log_id='LS', extra_data='XS', auto_message_payload=False))
+            await asyncio.sleep(12.0)
+            obs['start_done'] = t.done()
+            obs['outcomes'] = [('error', type(e[2]).__name__) for e in hook.log if e[0] == 'send_error' and isinstance(e[1], SubmitSm) and e[1].log_id == 'LS'] + \
+                              [('response', int(e[1].command_status)) for e in hook.log
+                               if e[0] == 'received' and isinstance(e[1], (SubmitSmResp, GenericNack)) and e[1].log_id == 'LS']
+            t.cancel()
+            await asyncio.wait({t}, timeout=30.0)
+        loop.run_until_complete(main())
+    finally:
+        undo()
+        vsess.finish(loop)
+    return obs
+
+
+def oracle_segment_expiry(obs):
+    if obs['start_done']:
+        return 'start() ended'
+    if obs['n'] != 2:
+        return f'{obs["n"]} submit_sm PDUs were written instead of 2'
+    if obs['outcomes'] != [('error', 'TimeoutError')]:
+        return f'the message got the outcomes {obs["outcomes"]}, expected exactly one TimeoutError'
+    return None
+
+
 def oracle_answered(obs, shape):
     if obs.get('start_done'):
         return 'start() ended'
@@ -612,6 +677,14 @@ def run(ctx):
         msg = oracle_reconnect_sweep(obs, ttl)
         if msg:
             ctx.violation(msg + f' (keep-alive every {ka} s)', {'function': 'reconnect_sweep', 'ttl': ttl, 'outage': outage, 'keepalive': ka})
+    for order in ('first_silent', 'second_silent'):
+        obs = segment_expiry_scenario(order)
+        ctx.traces += 1
+        ctx.case(('segment_expiry', order), nontrivial=True)
+        msg = oracle_segment_expiry(obs)
+        if msg:
+            ctx.violation(f'two-segment message, {order.replace("_", " ")}, its time-to-live runs out before the other segment is answered: {msg}',
+                          {'function': 'segment_expiry', 'order': order})
     for shape in ('ok', 'reject_cstring', 'reject_bare', 'reject_vendor', 'reject_reserved', 'nack'):
         obs = answered_scenario(shape)
         ctx.traces += 1
@@ -663,6 +736,12 @@ def replay(ctx, path):
         print('replay: requests written (time, connection, command):', [(round(t, 2), c, hex(cmd)) for t, c, cmd, _s in obs['requests']])
         print('replay: send_error calls:', obs['timeouts'])
         msg = oracle_reconnect_sweep(obs, rp['ttl'])
+        print('replay:', msg or 'property holds on this input')
+        return 1 if msg else 0
+    if fn == 'segment_expiry':
+        obs = segment_expiry_scenario(rp['order'])
+        msg = oracle_segment_expiry(obs)
+        print('replay: outcomes of the message:', obs['outcomes'])
         print('replay:', msg or 'property holds on this input')
         return 1 if msg else 0
     if fn == 'answered':
